@@ -1,7 +1,8 @@
 (* C06 - multi-hop packets: at-most-once delivery and forwarding, shrinking hop budget.
-   Audited statements only; proofs in Proofs/LocTProofs.v and Proofs/RouterProofs.v. *)
+   Audited statements only; proofs in Proofs/LocTProofs.v, Proofs/RouterProofs.v and Proofs/C06Moves.v. *)
 From FlexVerif Require Import Base.Prelude Base.Bits Model.LocT Model.Wire Model.Router Model.RouterSecured
-  Proofs.LocTProofs Proofs.RouterProofs Proofs.ForwardCopy Proofs.ForwardCopyGeo Proofs.FloodProofs Proofs.ForwardSecured.
+  Proofs.LocTProofs Proofs.RouterProofs Proofs.ForwardCopy Proofs.ForwardCopyGeo Proofs.FloodProofs Proofs.ForwardSecured
+  Proofs.C06Moves.
 
 (* -- duplicate detection: once (SO, SN) was accepted, a duplicate is rejected for as long as fewer than
       itsGnDPLLength other sequence numbers of SO have been accepted since -- *)
@@ -169,6 +170,30 @@ Theorem C06_cbf_duplicate_cancels : forall m s now g bv cv body h p0,
   cbf_fire s' key = (s', []).
 Proof. exact cbf_duplicate_cancels. Qed.
 Print Assumptions C06_cbf_duplicate_cancels.
+
+(* ... wherever the station is by then: it may report any number of new positions between the reception that put the
+   copy into the buffer and the duplicate (hypotheses on the state s before the moves, conclusion after them); position
+   updates touch neither the duplicate lists nor the buffer and send nothing *)
+Theorem C06_position_updates_keep_duplicate_state : forall m pvs s,
+  let r := run m s (map EEgo pvs) in
+  s_loct (fst r) = s_loct s /\ s_cbf (fst r) = s_cbf s /\ s_sn (fst r) = s_sn s /\ s_ls (fst r) = s_ls s /\
+  Forall (fun o => o = []) (snd r).
+Proof. exact ego_updates_keep_state. Qed.
+Print Assumptions C06_position_updates_keep_duplicate_state.
+
+Theorem C06_cbf_duplicate_cancels_after_moves : forall m s pvs now g bv cv body h p0,
+  let sm := fst (run m s (map EEgo pvs)) in
+  dec_gbc body = Some h -> zero_area (arg 2 cv) h = false ->
+  lookup_ins (g_ins g) (pv_lat (s_ego sm)) (pv_lon (s_ego sm)) <> None ->
+  mid_eqb (pv_addr (firstn 9 (skipn 2 h))) (m_addr m) = false ->
+  rx_mh (s_loct s) (firstn 9 (skipn 2 h)) (arg 0 h) now (m_life_ms m) (m_dpl_len m) = None ->
+  cbf_find (s_cbf s) (pv_addr (firstn 9 (skipn 2 h)) ++ [arg 0 h]) = Some p0 ->
+  let key := pv_addr (firstn 9 (skipn 2 h)) ++ [arg 0 h] in
+  let s' := fst (rx_gbc m sm now g bv cv body) in
+  In (OTimerCancel 1 key) (snd (rx_gbc m sm now g bv cv body)) /\ quiet (snd (rx_gbc m sm now g bv cv body)) /\
+  cbf_fire s' key = (s', []).
+Proof. exact cbf_duplicate_cancels_after_moves. Qed.
+Print Assumptions C06_cbf_duplicate_cancels_after_moves.
 
 Theorem C06_cbf_sent_at_most_once : forall s key,
   cbf_fire (fst (cbf_fire s key)) key = (fst (cbf_fire s key), []).
